@@ -1,4 +1,4 @@
-(* Lemmas about Batch.apply_input_plugins: outside the class K (an expanded query rejected after
+(* Lemmas about Batch.apply_core: outside the class K (an expanded query rejected after
    the expansion while it has siblings) the plugin stage answers every expanded query on its own;
    inside it, one error response replaces all of them. *)
 From Coq Require Import String.
@@ -20,7 +20,7 @@ Section PluginLemmas.
   Variable invariant_error : query -> response.
   Notation plugin := (@plugin query response).
   Notation finish := (finish is_object invariant_error).
-  Notation apply_input_plugins := (apply_input_plugins is_object invariant_error).
+  Notation apply_core := (apply_core is_object invariant_error).
 
   Lemma stage_all_app : forall (pl : plugin) l1 l2,
       stage_all pl (l1 ++ l2)
@@ -79,11 +79,11 @@ Section PluginLemmas.
       split; [intros H; injection H as <-; auto | intros [-> _]; reflexivity].
   Qed.
 
-  Lemma apply_input_plugins_ok : forall (st : list plugin) c out,
-      apply_input_plugins st c = inl out <->
+  Lemma apply_core_ok : forall (st : list plugin) c out,
+      apply_core st c = inl out <->
       apply_stages st [c] = inl out /\ forallb is_object out = true.
   Proof.
-    intros st c out. unfold Batch.apply_input_plugins.
+    intros st c out. unfold Batch.apply_core.
     destruct (apply_stages st [c]) as [l|e].
     - rewrite finish_ok. split; [intros [-> H]; auto | intros [H1 H2]; injection H1 as ->; auto].
     - split; [discriminate | intros [H _]; discriminate].
@@ -92,12 +92,12 @@ Section PluginLemmas.
   (* every expanded query accepted on its own => the whole list is accepted, with the
      concatenation of the individual results *)
   Lemma all_children_ok : forall (st : list plugin) kids,
-      (forall c, In c kids -> exists out, apply_input_plugins st c = inl out) ->
+      (forall c, In c kids -> exists out, apply_core st c = inl out) ->
       exists outs, apply_stages st kids = inl outs
               /\ forallb is_object outs = true
               /\ forall (B : Type) (g : query -> B),
                   map g outs
-                  = flat_map (fun c => match apply_input_plugins st c with
+                  = flat_map (fun c => match apply_core st c with
                                        | inl cs => map g cs | inr _ => [] end) kids.
   Proof.
     intros st. induction kids as [|c r IH]; intros H.
@@ -105,7 +105,7 @@ Section PluginLemmas.
       clear. induction st as [|pl rest IH]; [reflexivity | exact IH].
     - destruct (H c (or_introl eq_refl)) as [out Hc].
       destruct IH as [outs [Hs [Ho Hm]]]; [intros c' Hin; apply H; right; exact Hin|].
-      pose proof Hc as Hc'. apply apply_input_plugins_ok in Hc'. destruct Hc' as [Hc1 Hc2].
+      pose proof Hc as Hc'. apply apply_core_ok in Hc'. destruct Hc' as [Hc1 Hc2].
       exists (out ++ outs). split; [|split].
       + change (c :: r) with ([c] ++ r). apply apply_stages_app_ok; assumption.
       + rewrite forallb_app, Hc2, Ho. reflexivity.
@@ -123,22 +123,26 @@ Section IdealLemmas.
   Variable weight_error : query -> response.
   Variable single : query -> response.
   Variable fmt : response -> response.
+  Variable not_object_error : query -> response.
 
-  Notation plugins := (apply_input_plugins is_object invariant_error (grid :: later)).
+  Notation plugins := (Batch.apply_input_plugins is_object invariant_error not_object_error (grid :: later)).
   Notation answer := (Batch.answer plugins weight weight_error single fmt).
-  Notation answer_ideal := (Batch.answer_ideal grid later is_object invariant_error weight weight_error single fmt).
+  Notation answer_ideal := (Batch.answer_ideal grid later is_object invariant_error weight weight_error single fmt not_object_error).
   Notation K := (Batch.K grid later is_object invariant_error).
 
   Lemma plugins_unfold : forall q,
-      plugins q = match grid q with
-                  | inr e => inr e
-                  | inl kids => match apply_stages later kids with
-                                | inr e => inr e
-                                | inl l => finish is_object invariant_error l
-                                end
-                  end.
+      plugins q = if is_object q then
+                    match grid q with
+                    | inr e => inr e
+                    | inl kids => match apply_stages later kids with
+                                  | inr e => inr e
+                                  | inl l => finish is_object invariant_error l
+                                  end
+                    end
+                  else inr (not_object_error q).
   Proof.
-    intros q. unfold Batch.apply_input_plugins. cbn [apply_stages stage_all].
+    intros q. unfold Batch.apply_input_plugins, Batch.apply_core. cbn [apply_stages stage_all].
+    destruct (is_object q); [|reflexivity].
     destruct (grid q) as [kids|e]; [|reflexivity]. rewrite app_nil_r. reflexivity.
   Qed.
 
@@ -146,6 +150,7 @@ Section IdealLemmas.
   Lemma answer_outside_K : forall q, ~ K q -> answer q = answer_ideal q.
   Proof.
     intros q HK. unfold Batch.answer, Batch.answer_ideal. rewrite plugins_unfold.
+    destruct (is_object q) eqn:Eo; [|reflexivity].
     destruct (grid q) as [kids|e] eqn:Eg; [|reflexivity].
     destruct kids as [|c [|c2 r]].
     - (* no child *)
@@ -153,14 +158,14 @@ Section IdealLemmas.
       { clear. induction later as [|pl rest IH]; [reflexivity | exact IH]. }
       rewrite Hs. reflexivity.
     - (* one child: the definitions coincide *)
-      cbn [flat_map]. rewrite app_nil_r. unfold Batch.answer_child, Batch.apply_input_plugins.
+      cbn [flat_map]. rewrite app_nil_r. unfold Batch.answer_child, Batch.apply_core.
       destruct (apply_stages later [c]) as [l|e]; [|reflexivity]. reflexivity.
     - (* at least two children: none may fail on its own *)
       assert (Hall : forall c', In c' (c :: c2 :: r) ->
-                           exists out, apply_input_plugins is_object invariant_error later c' = inl out).
-      { intros c' Hin. destruct (apply_input_plugins is_object invariant_error later c') as [out|e] eqn:E.
+                           exists out, apply_core is_object invariant_error later c' = inl out).
+      { intros c' Hin. destruct (apply_core is_object invariant_error later c') as [out|e] eqn:E.
         - exists out. reflexivity.
-        - exfalso. apply HK. exists (c :: c2 :: r). split; [exact Eg|]. split; [simpl; lia|].
+        - exfalso. apply HK. split; [exact Eo|]. exists (c :: c2 :: r). split; [exact Eg|]. split; [simpl; lia|].
           exists c', e. split; assumption. }
       destruct (all_children_ok is_object invariant_error later _ Hall) as [outs [Hs [Ho Hm]]].
       rewrite Hs. assert (Hf : finish is_object invariant_error outs = inl outs) by (apply finish_ok; auto).
@@ -177,7 +182,7 @@ Section IdealLemmas.
   (* inside K: one error response, whatever the number of children and however many are good *)
   Lemma answer_inside_K : forall q, K q -> exists e, answer q = [fmt e].
   Proof.
-    intros q [kids [Eg [_ [c [e [Hin Hc]]]]]]. unfold Batch.answer. rewrite plugins_unfold, Eg.
+    intros q [Eo [kids [Eg [_ [c [e [Hin Hc]]]]]]]. unfold Batch.answer. rewrite plugins_unfold, Eo, Eg.
     destruct (apply_stages later kids) as [l|e'] eqn:Es; [|exists e'; reflexivity].
     destruct (finish is_object invariant_error l) as [l'|e'] eqn:Ef; [|exists e'; reflexivity].
     exfalso. apply finish_ok in Ef. destruct Ef as [-> Ho].
@@ -187,8 +192,8 @@ Section IdealLemmas.
     destruct (apply_stages_app_inv later [k] r l Es) as [o1 [o2 [H1 [H2 ->]]]].
     rewrite forallb_app in Ho. apply andb_prop in Ho. destruct Ho as [Ho1 Ho2].
     destruct Hin as [<- | Hin].
-    - assert (apply_input_plugins is_object invariant_error later k = inl o1)
-        by (apply apply_input_plugins_ok; auto). congruence.
+    - assert (apply_core is_object invariant_error later k = inl o1)
+        by (apply apply_core_ok; auto). congruence.
     - exact (IH Hin o2 H2 Ho2).
   Qed.
 
@@ -197,12 +202,13 @@ Section IdealLemmas.
       = Batch.expanded_ideal grid later is_object invariant_error q.
   Proof.
     intros q. unfold Batch.answer_ideal, Batch.expanded_ideal.
+    destruct (is_object q); [|reflexivity].
     destruct (grid q) as [kids|e]; [|reflexivity].
     induction kids as [|c r IH]; [reflexivity|].
     cbn [flat_map map list_sum]. rewrite app_length, IH.
     change (list_sum (?a :: ?l)) with (a + list_sum l). f_equal.
     unfold Batch.answer_child.
-    destruct (apply_input_plugins is_object invariant_error later c); [apply map_length | reflexivity].
+    destruct (apply_core is_object invariant_error later c); [apply map_length | reflexivity].
   Qed.
 
   Variable sink_ok : response -> bool.
@@ -233,14 +239,14 @@ Definition exK_grid (q : Z) : list Z + Z :=
   match q with 0 => inl [10; 11; 12] | 1 => inl [13] | _ => inr (-1) end%Z.
 Definition exK_later : list (@plugin Z Z) := [fun c => if Z.eqb c 11 then inr 900%Z else inl [c]].
 Definition exK_plugins : Z -> list Z + Z :=
-  apply_input_plugins (fun _ => true) (fun _ => (-2)%Z) (exK_grid :: exK_later).
+  Batch.apply_input_plugins (fun _ => true) (fun _ => (-2)%Z) (fun _ => (-3)%Z) (exK_grid :: exK_later).
 Definition exK_weight (c : Z) : res (option QN) := Ok None.
 Definition exK_run pol p_cfg p_run batch :=
   @Batch.run QN Z Z exK_plugins exK_weight (fun c => (c + 91)%Z) (fun c => (c + 90)%Z) (fun r => r)
              (fun _ => true) pol p_cfg p_run batch.
 Definition exK_ideal :=
   @Batch.answer_ideal QN Z Z exK_grid exK_later (fun _ => true) (fun _ => (-2)%Z) exK_weight
-                      (fun c => (c + 91)%Z) (fun c => (c + 90)%Z) (fun r => r).
+                      (fun c => (c + 91)%Z) (fun c => (c + 90)%Z) (fun r => r) (fun _ => (-3)%Z).
 
 Lemma K_witness :
   Batch.K exK_grid exK_later (fun _ => true) (fun _ => (-2)%Z) 0%Z
@@ -248,7 +254,7 @@ Lemma K_witness :
   /\ exists o, exK_run PersistInMemory 2 2 [1; 0]%Z = Ok o /\ returned o = [103; 900]%Z.
 Proof.
   split; [|split].
-  - exists [10; 11; 12]%Z. split; [reflexivity|]. split; [simpl; lia|].
+  - split; [reflexivity|]. exists [10; 11; 12]%Z. split; [reflexivity|]. split; [simpl; lia|].
     exists 11%Z, 900%Z. split; [simpl; auto | reflexivity].
   - vm_compute. reflexivity.
   - eexists. split; vm_compute; reflexivity.
